@@ -478,4 +478,360 @@ theorem cacheMap_packed_reset (es : List CEntry) (n : Nat) :
   rw [cacheMap, occupied_packed]
   simp [List.map_map, Function.comp_def, resetAccess]
 
+/-! ### cache ring: well-formedness (as many slots as the capacity, no key in two slots) -/
+
+def SlotsNodup (slots : List (Option CEntry)) : Prop :=
+  ∀ (i j : Nat) (e1 e2 : CEntry), slots[i]? = some (some e1) → slots[j]? = some (some e2) → e1.key = e2.key → i = j
+
+theorem mem_occupied (slots : List (Option CEntry)) (e : CEntry) :
+    e ∈ occupied slots ↔ ∃ i : Nat, slots[i]? = some (some e) := by
+  induction slots with
+  | nil => simp [occupied]
+  | cons s ss ih =>
+    cases s with
+    | none =>
+      simp only [occupied, ih]
+      constructor
+      · rintro ⟨i, hi⟩; exact ⟨i + 1, by simpa using hi⟩
+      · rintro ⟨i, hi⟩
+        cases i with
+        | zero => simp at hi
+        | succ i => exact ⟨i, by simpa using hi⟩
+    | some e' =>
+      simp only [occupied, List.mem_cons, ih]
+      constructor
+      · rintro (h | ⟨i, hi⟩)
+        · exact ⟨0, by simp [h]⟩
+        · exact ⟨i + 1, by simpa using hi⟩
+      · rintro ⟨i, hi⟩
+        cases i with
+        | zero => left; simpa using hi.symm
+        | succ i => right; exact ⟨i, by simpa using hi⟩
+
+theorem slotsNodup_tail (s : Option CEntry) (ss : List (Option CEntry)) (h : SlotsNodup (s :: ss)) : SlotsNodup ss := by
+  unfold SlotsNodup
+  intro i j e1 e2 h1 h2 hk
+  have := h (i + 1) (j + 1) e1 e2 (by simpa using h1) (by simpa using h2) hk
+  omega
+
+theorem occKeys_nodup (slots : List (Option CEntry)) (h : SlotsNodup slots) : ((occupied slots).map (·.key)).Nodup := by
+  induction slots with
+  | nil => simp [occupied]
+  | cons s ss ih =>
+    have ht := ih (slotsNodup_tail s ss h)
+    cases s with
+    | none => simpa [occupied] using ht
+    | some e =>
+      simp only [occupied, List.map_cons, List.nodup_cons]
+      refine ⟨?_, ht⟩
+      intro hm
+      obtain ⟨e2, he2, hk⟩ := List.mem_map.mp hm
+      obtain ⟨j, hj⟩ := (mem_occupied ss e2).mp he2
+      have := h 0 (j + 1) e e2 (by simp) (by simpa using hj) hk.symm
+      omega
+
+theorem findSlot_some_spec (key : Name) (slots : List (Option CEntry)) (i : Nat) (h : findSlot key slots 0 = some i) :
+    ∃ e, slots[i]? = some (some e) ∧ e.key = key := by
+  induction slots generalizing i with
+  | nil => simp [findSlot] at h
+  | cons s ss ih =>
+    simp only [findSlot] at h
+    by_cases hs : slotHolds key s = true
+    · simp only [hs, if_true, Option.some.injEq] at h
+      subst h
+      cases s with
+      | none => simp [slotHolds] at hs
+      | some e => exact ⟨e, by simp, by simpa [slotHolds] using hs⟩
+    · simp only [hs, Bool.false_eq_true, if_false] at h
+      rw [findSlot_shift] at h
+      cases hf : findSlot key ss 0 with
+      | none => rw [hf] at h; simp at h
+      | some j =>
+        rw [hf] at h
+        simp only [Option.map_some, Option.some.injEq] at h
+        subst h
+        obtain ⟨e, he, hk⟩ := ih j hf
+        exact ⟨e, by simpa using he, hk⟩
+
+theorem findSlot_none_spec (key : Name) (slots : List (Option CEntry)) (h : findSlot key slots 0 = none) :
+    ∀ (j : Nat) (e : CEntry), slots[j]? = some (some e) → e.key ≠ key := by
+  intro j e hj hk
+  have h1 := findSlot_isSome_eq slots key
+  rw [h] at h1
+  have hm : key ∈ aKeys (cacheMap slots) := by
+    simp only [cacheMap, aKeys, List.map_map, List.mem_map, Function.comp_def]
+    exact ⟨e, (mem_occupied slots e).mpr ⟨j, hj⟩, hk⟩
+  rw [← aFind_isSome_iff_mem] at hm
+  rw [hm] at h1
+  simp at h1
+
+theorem slotsNodup_set_none (slots : List (Option CEntry)) (i : Nat) (h : SlotsNodup slots) : SlotsNodup (slots.set i none) := by
+  unfold SlotsNodup
+  intro a b e1 e2 h1 h2 hk
+  rw [List.getElem?_set] at h1 h2
+  by_cases ha : i = a
+  · simp only [ha, if_true] at h1; split at h1 <;> simp at h1
+  · by_cases hb : i = b
+    · simp only [hb, if_true] at h2; split at h2 <;> simp at h2
+    · simp only [ha, hb, if_false] at h1 h2
+      exact h a b e1 e2 h1 h2 hk
+
+theorem slotsNodup_set_same_key (slots : List (Option CEntry)) (i : Nat) (e e' : CEntry)
+    (hi : slots[i]? = some (some e)) (hk' : e'.key = e.key) (h : SlotsNodup slots) :
+    SlotsNodup (slots.set i (some e')) := by
+  unfold SlotsNodup
+  intro a b e1 e2 h1 h2 hk
+  rw [List.getElem?_set] at h1 h2
+  by_cases ha : i = a
+  · by_cases hb : i = b
+    · omega
+    · simp only [ha, if_true] at h1
+      simp only [hb, if_false] at h2
+      split at h1
+      · simp only [Option.some.injEq] at h1
+        subst h1
+        have := h i b e e2 hi h2 (by rw [← hk', hk])
+        omega
+      · simp at h1
+  · by_cases hb : i = b
+    · simp only [ha, if_false] at h1
+      simp only [hb, if_true] at h2
+      split at h2
+      · simp only [Option.some.injEq] at h2
+        subst h2
+        have := h a i e1 e h1 hi (by rw [hk, hk'])
+        omega
+      · simp at h2
+    · simp only [ha, hb, if_false] at h1 h2
+      exact h a b e1 e2 h1 h2 hk
+
+theorem slotsNodup_set_fresh (slots : List (Option CEntry)) (i : Nat) (e' : CEntry)
+    (hfresh : ∀ (j : Nat) (e : CEntry), slots[j]? = some (some e) → e.key ≠ e'.key) (h : SlotsNodup slots) :
+    SlotsNodup (slots.set i (some e')) := by
+  unfold SlotsNodup
+  intro a b e1 e2 h1 h2 hk
+  rw [List.getElem?_set] at h1 h2
+  by_cases ha : i = a
+  · by_cases hb : i = b
+    · omega
+    · simp only [ha, if_true] at h1
+      simp only [hb, if_false] at h2
+      split at h1
+      · simp only [Option.some.injEq] at h1
+        subst h1
+        exact absurd hk.symm (hfresh b e2 h2)
+      · simp at h1
+  · by_cases hb : i = b
+    · simp only [ha, if_false] at h1
+      simp only [hb, if_true] at h2
+      split at h2
+      · simp only [Option.some.injEq] at h2
+        subst h2
+        exact absurd hk (hfresh a e1 h1)
+      · simp at h2
+    · simp only [ha, hb, if_false] at h1 h2
+      exact h a b e1 e2 h1 h2 hk
+
+structure Cache.WF (c : Cache) : Prop where
+  len : c.slots.length = c.cap
+  nd : SlotsNodup c.slots
+
+theorem Cache.new_wf (cap : Nat) : (Cache.new cap).WF :=
+  ⟨by simp [Cache.new], by
+    unfold SlotsNodup
+    intro i j e1 e2 h1 _ _
+    simp only [Cache.new, List.getElem?_replicate] at h1
+    split at h1 <;> simp at h1⟩
+
+theorem Cache.clear_wf (c : Cache) (h : c.WF) : c.clear.WF :=
+  ⟨by simp [Cache.clear, h.len], by
+    unfold SlotsNodup
+    intro i j e1 e2 h1 _ _
+    simp only [Cache.clear, List.getElem?_replicate] at h1
+    split at h1 <;> simp at h1⟩
+
+theorem Cache.put_wf (c : Cache) (key : Name) (val : TData) (cost size victim : Nat) (h : c.WF) :
+    (c.put key val cost size victim).WF := by
+  unfold Cache.put
+  cases hf : findSlot key c.slots 0 with
+  | some i =>
+    obtain ⟨e, he, hk⟩ := findSlot_some_spec key c.slots i hf
+    simp only [he]
+    exact ⟨by simp [h.len], slotsNodup_set_same_key c.slots i e _ he rfl h.nd⟩
+  | none =>
+    simp only
+    refine ⟨by simp [h.len], slotsNodup_set_fresh c.slots _ ⟨key, val, 1, cost, size⟩ ?_ h.nd⟩
+    exact findSlot_none_spec key c.slots hf
+
+theorem Cache.touch_wf (c : Cache) (key : Name) (h : c.WF) : (c.touch key).WF := by
+  unfold Cache.touch
+  cases hf : findSlot key c.slots 0 with
+  | some i =>
+    obtain ⟨e, he, hk⟩ := findSlot_some_spec key c.slots i hf
+    simp only [he]
+    exact ⟨by simp [h.len], slotsNodup_set_same_key c.slots i e _ he rfl h.nd⟩
+  | none => exact h
+
+theorem Cache.delete_wf (c : Cache) (key : Name) (h : c.WF) : (c.delete key).WF := by
+  unfold Cache.delete
+  cases hf : findSlot key c.slots 0 with
+  | some i => exact ⟨by simp [h.len], slotsNodup_set_none c.slots i h.nd⟩
+  | none => exact h
+
+theorem Cache.evict_wf (c : Cache) (keys : List Name) (h : c.WF) : (c.evict keys).WF := by
+  unfold Cache.evict
+  induction keys generalizing c with
+  | nil => exact h
+  | cons k ks ih => exact ih (c.delete k) (Cache.delete_wf c k h)
+
+/-! ### the router: well-formedness of the key-addressed slabs, kept by every operation -/
+
+section AList2
+variable {κ : Type} {ν : Type} [DecidableEq κ]
+
+theorem mem_aInsert (k : κ) (v : ν) (l : List (κ × ν)) (p : κ × ν) (h : p ∈ aInsert k v l) : p = (k, v) ∨ p ∈ l := by
+  induction l with
+  | nil => simp [aInsert] at h; exact Or.inl h
+  | cons q l ih =>
+    obtain ⟨k', v'⟩ := q
+    by_cases h1 : k' = k
+    · simp only [aInsert, h1, if_true, List.mem_cons] at h
+      rcases h with h | h
+      · exact Or.inl h
+      · exact Or.inr (List.mem_cons_of_mem _ h)
+    · simp only [aInsert, h1, if_false, List.mem_cons] at h
+      rcases h with h | h
+      · exact Or.inr (by simp [h])
+      · rcases ih h with h | h
+        · exact Or.inl h
+        · exact Or.inr (List.mem_cons_of_mem _ h)
+
+theorem mem_aErase (k : κ) (l : List (κ × ν)) (p : κ × ν) (h : p ∈ aErase k l) : p ∈ l := by
+  induction l with
+  | nil => exact h
+  | cons q l ih =>
+    obtain ⟨k', v'⟩ := q
+    by_cases h1 : k' = k
+    · simp only [aErase, h1, if_true] at h
+      exact List.mem_cons_of_mem _ (ih h)
+    · simp only [aErase, h1, if_false, List.mem_cons] at h
+      rcases h with h | h
+      · simp [h]
+      · exact List.mem_cons_of_mem _ (ih h)
+
+end AList2
+
+structure ESlab.WF (s : ESlab) : Prop where
+  nd : (aKeys s.ents).Nodup
+  len : ∀ p ∈ s.ents, p.2.length = s.dim
+
+theorem ESlab.new_wf (dim : Nat) : (ESlab.new dim).WF := ⟨by simp [ESlab.new, aKeys], by simp [ESlab.new]⟩
+
+theorem ESlab.delete_wf (s : ESlab) (id : Nat) (h : s.WF) : (s.delete id).WF :=
+  ⟨aKeys_aErase_nodup id s.ents h.nd, fun p hp => h.len p (mem_aErase id s.ents p hp)⟩
+
+theorem ESlab.set_wf (s s' : ESlab) (id : Nat) (v : List Nat) (h : s.WF) (hs : s.set id v = some s') : s'.WF := by
+  unfold ESlab.set at hs
+  split at hs
+  · simp at hs
+  · rename_i hl
+    simp only [Option.some.injEq] at hs
+    subst hs
+    refine ⟨aKeys_aInsert_nodup id v s.ents h.nd, fun p hp => ?_⟩
+    rcases mem_aInsert id v s.ents p hp with hp | hp
+    · subst hp; simpa using hl
+    · exact h.len p hp
+
+theorem ESlab.set_dim (s s' : ESlab) (id : Nat) (v : List Nat) (hs : s.set id v = some s') : s'.dim = s.dim := by
+  unfold ESlab.set at hs
+  split at hs
+  · simp at hs
+  · simp only [Option.some.injEq] at hs; subst hs; rfl
+
+structure Router.WF (r : Router) : Prop where
+  md : (aKeys r.md).Nodup
+  emb : r.emb.WF
+  cache : r.cache.WF
+
+theorem Router.new_wf (cfg : RouterCfg) : (Router.new cfg).WF :=
+  ⟨by simp [Router.new, aKeys], ESlab.new_wf _, Cache.new_wf _⟩
+
+theorem Router.put_wf (r : Router) (key : Name) (val : TData) (victim : Nat) (h : r.WF) : (r.put key val victim).WF := by
+  unfold Router.put
+  cases classifyKey key with
+  | embedding =>
+    simp only
+    refine ⟨aKeys_aInsert_nodup key val r.md h.md, ?_, h.cache⟩
+    cases val.embOf with
+    | none => exact ESlab.delete_wf _ _ h.emb
+    | some vec =>
+      simp only
+      cases hs : r.emb.set (r.index.getOrCreate key).2 vec with
+      | none => exact ESlab.delete_wf _ _ h.emb
+      | some e => exact ESlab.set_wf _ _ _ _ h.emb hs
+  | cache => exact ⟨h.md, h.emb, Cache.put_wf _ _ _ _ _ _ h.cache⟩
+  | graph => exact ⟨aKeys_aInsert_nodup key val r.md h.md, h.emb, h.cache⟩
+  | table => exact ⟨aKeys_aInsert_nodup key val r.md h.md, h.emb, h.cache⟩
+  | metadata => exact ⟨aKeys_aInsert_nodup key val r.md h.md, h.emb, h.cache⟩
+
+theorem Router.delete_wf (r : Router) (key : Name) (h : r.WF) : (r.delete key).1.WF := by
+  unfold Router.delete
+  split
+  · exact h
+  · cases classifyKey key with
+    | embedding =>
+      simp only
+      refine ⟨aKeys_aErase_nodup key r.md h.md, ?_, h.cache⟩
+      cases r.index.get key with
+      | none => exact h.emb
+      | some id => exact ESlab.delete_wf _ _ h.emb
+    | cache => exact ⟨h.md, h.emb, Cache.delete_wf _ _ h.cache⟩
+    | graph => exact ⟨aKeys_aErase_nodup key r.md h.md, h.emb, h.cache⟩
+    | table => exact ⟨aKeys_aErase_nodup key r.md h.md, h.emb, h.cache⟩
+    | metadata => exact ⟨aKeys_aErase_nodup key r.md h.md, h.emb, h.cache⟩
+
+theorem Router.touch_wf (r : Router) (key : Name) (h : r.WF) : (r.touch key).WF := by
+  unfold Router.touch
+  cases classifyKey key with
+  | cache => exact ⟨h.md, h.emb, Cache.touch_wf _ _ h.cache⟩
+  | embedding => exact h
+  | graph => exact h
+  | table => exact h
+  | metadata => exact h
+
+theorem Router.clear_wf (r : Router) (h : r.WF) : r.clear.WF :=
+  ⟨by simp [Router.clear, aKeys], ESlab.new_wf _, Cache.clear_wf _ h.cache⟩
+
+theorem Router.apply_wf (r : Router) (op : ROp) (h : r.WF) : (r.apply op).WF := by
+  cases op with
+  | put k v victim => exact Router.put_wf r k v victim h
+  | delete k => exact Router.delete_wf r k h
+  | get k => exact Router.touch_wf r k h
+  | evict ks => exact ⟨h.md, h.emb, Cache.evict_wf _ ks h.cache⟩
+  | clear => exact Router.clear_wf r h
+  | graph op => exact ⟨h.md, h.emb, h.cache⟩
+  | blob op => exact ⟨h.md, h.emb, h.cache⟩
+
+theorem Router.run_wf (r : Router) (ops : List ROp) (h : r.WF) : (r.run ops).WF := by
+  unfold Router.run
+  induction ops generalizing r with
+  | nil => exact h
+  | cons op ops ih => exact ih (r.apply op) (Router.apply_wf r op h)
+
+/-- the embedding slab after snapshot + restore -/
+def ESlab.rounded (ttOk : List Nat → Bool) (ttRecon : List Nat → List Nat) (s : ESlab) : ESlab :=
+  ⟨s.dim, s.ents.filterMap (fun p => (embRound ttOk ttRecon s.dim p.2).map (fun w => (p.1, w)))⟩
+
+/-- closed form of `SlabRouter::restore(snapshot())` on a well-formed router -/
+theorem router_restore_snapshot (ttOk : List Nat → Bool) (ttRecon : List Nat → List Nat) (fx : GFix) (r : Router) (h : r.WF) :
+    Router.restore ttRecon fx (r.snapshot ttOk).2 =
+      ⟨r.index, r.emb.rounded ttOk ttRecon, r.md,
+       ⟨r.cache.cap, packed ((occupied r.cache.slots).map resetAccess) (r.cache.cap - (occupied r.cache.slots).length)⟩,
+       GraphT.restore fx r.graph.snapshot.2, BlobLog.restore r.blobs.snapshot⟩ := by
+  unfold Router.restore Router.snapshot
+  simp only [EIndex.restore, EIndex.snapshot, restoreMeta]
+  rw [eslab_restore_snapshot ttOk ttRecon r.emb h.emb.nd, foldl_aInsert_nil r.md h.md,
+    cache_restore_snapshot r.cache h.cache.len (occKeys_nodup _ h.cache.nd)]
+  rfl
+
 end Neumann.Snap
